@@ -13,7 +13,7 @@ LEVEL = "exploration"
 TECHNIQUE = "deviation-bounded exhaustive enumeration of constructor arguments (those of the released signatures, plus any parameter the class has gained since, over 6 values) x block sizes x ATA transfer rules; buffer lengths recomputed from the CDB by the independent spec decoder and each command handed to both stand-in transports"
 RULE = ("42 classes x offering tables x argument tuples with at most k deviations (k=1 quick, 2 thorough) x block sizes {1,512,520,4096} for "
         "block commands (products above 2^22 bytes skipped) ; ATA PASS-THROUGH 12/16: full product t_length(4) x byte_block x t_type x t_dir x "
-        "data given/omitted x blocksize {0,512,4096} x extra_tl {None,3} x count/features {0,1,2,max8,(max16)}, and block sizes that are no plain positive int (numeric text, float, negative, list, None, integer-like, bool) x tl 1..3: refused, or buffers of exactly tl x that many bytes; write data as mmap (fresh / position at the end / in the middle) and array('B'), each used for two commands in a row; PROTOCOL 0..15 x t_length x byte_block x t_type x t_dir x data given/omitted x extra_tl ; MODE SELECT / PR OUT / EXTENDED COPY "
+        "data given/omitted x blocksize {0,512,4096} x extra_tl {None,3} x count/features {0,1,2,max8,(max16)}, and per class one construction with an allocator that fails above 4 KiB, and one with the largest request the CDB field can carry and an allocator that fails above 2 MiB (refused with MemoryError, or buffers as the CDB announces); block sizes that are no plain positive int (numeric text, float, negative, list, None, integer-like, bool) x tl 1..3: refused, or buffers of exactly tl x that many bytes; write data as mmap (fresh / position at the end / in the middle) and array('B'), each used for two commands in a row; PROTOCOL 0..15 x t_length x byte_block x t_type x t_dir x data given/omitted x extra_tl ; MODE SELECT / PR OUT / EXTENDED COPY "
         "with parameter dictionaries of several sizes. Every constructed command is executed on an SG_IO and an iSCSI device (stand-ins), which take "
         "len() of both buffers; the iSCSI task direction/length is compared with the same numbers; afterwards the result is decoded (unmarshall) and both buffers must still be the same objects of the same length; 12 data-in facade methods on both transports answered with a well-formed response and 8 truncated / garbage ones (a length field announcing more than was transferred): every command reaching the target and the command handed back satisfy the same relation; two facades with block sizes 512 / 4096 alive at once (3 creation orders), READ/WRITE(10,12,16) on each in turn. Non-trivial = a deviation or a non-default "
         "block size; distinct = distinct (class, table, tuple, blocksize).")
@@ -275,6 +275,56 @@ def run_odd_blocksize(name, st, key, bsname, tl):
     return out
 
 
+def run_alloc_failure(name, st, key, threshold=4096):
+    """the environment answers 'no memory' when the command's buffers are allocated (the allocator of the module that builds them is
+    replaced by one that fails above 4 KiB): the construction fails with that MemoryError - or, if a command comes out all the same, its
+    buffers still are exactly what the CDB announces"""
+    import builtins
+    import pyscsi.pyscsi.scsi_command as cmdmod
+    ensure_rigs()
+    c = S.CLASSES[name]
+    point = dict(CS.baseline(name))
+    big = False
+    for arg, field in c["args"].items():
+        if field in S.ALLOCATING:
+            if threshold == 4096:
+                point[arg] = 0xFFF0 if name not in BLOCK else 64
+            else:
+                from vf.props import c02
+                width = next((w for (f, _, _, w) in c02.lib_fields(name) if f == field), 16)
+                point[arg] = min((1 << width) - 1, (1 << 31) - 1) if name not in BLOCK else min((1 << width) - 1, 0x4000)
+            big = True
+    if not big:
+        return []
+    bs = 512 if name in BLOCK else None
+    cls = CS.get_class(name)
+    op = CS.get_opcode(st, key)
+    kw = CS.build_kwargs(name, point, blocksize=bs or 1)
+    if name in BLOCK:
+        kw["blocksize"] = bs
+        kw.pop("data", None)
+        if name.startswith(("Write", "WriteSame")):
+            return []
+
+    def failing(*a, **k):
+        if a and isinstance(a[0], int) and not isinstance(a[0], bool) and a[0] > threshold:
+            raise MemoryError()
+        return builtins.bytearray(*a, **k)
+    where = "%s(%r) via %s.%s with an allocator that fails above %d bytes" % (name, point, st, key, threshold)
+    cmdmod.bytearray = failing
+    try:
+        try:
+            cmd = cls(op, **kw)
+        except MemoryError:
+            return []
+        except Exception as e:   # noqa: BLE001
+            return [("alloc_failure/other_error/%s" % name, "%s: raised %s: %s instead of the MemoryError" % (where, type(e).__name__, e))]
+    finally:
+        del cmdmod.bytearray
+    v, li, lo = judge(name, cmd, kw, where)
+    return [("alloc_failure/" + k, w) for k, w in v]
+
+
 PAYLOAD_KINDS = ("mmap", "mmapend", "mmapmid", "arrayB")
 NEW_PARAM_VALUES = (0, 1, 12, 255, 512, 4096)
 
@@ -322,6 +372,8 @@ def run_case(case, obs=None):
         return run_payload(*case[1:])
     if case[0] == "odd_blocksize":
         return run_odd_blocksize(*case[1:])
+    if case[0] == "alloc_failure":
+        return run_alloc_failure(*case[1:])
     ensure_rigs()
     name, st, key, point, bs, variant = case
     where = "%s(%r, blocksize=%r, variant=%r) via %s.%s" % (name, point, bs, variant, st, key)
@@ -551,6 +603,8 @@ def run_partition(part, tier, seed):
         for bsname in ODD_BLOCKSIZES:
             for tl in (1, 2, 3):
                 do(["odd_blocksize", name, st, key, bsname, tl], True)
+    do(["alloc_failure", name, st, key], True)
+    do(["alloc_failure", name, st, key, 1 << 21], True)
     for param in new_parameters(name):
         for value in NEW_PARAM_VALUES:
             do(["new_param", name, st, key, param, value], True)
